@@ -71,6 +71,22 @@ Proof.
 Qed.
 End C10.
 
+(* ---- the sending entity (Model/Send.v) ---- *)
+From CFDP Require Import Model.Send Proofs.CancelDataP.
+(* a user cancel, in any phase and state, moves the send transaction to the Cancelled phase, and
+   from there (or from the phase entered on a Finished PDU) NO operation - retransmission requests
+   included - makes it transmit file data or Metadata again or return to a transmitting phase:
+   only EOF(cancel), ACK(Finished) and Prompt PDUs can follow *)
+Theorem C10_user_cancel_ends_data : forall cksum resp_len req_len now s,
+  let s' := fst (sstep cksum resp_len req_len now SCancelOp s) in
+  s_phase s' = SCancelled /\ Forall no_data (s_out s').
+Proof. exact cancel_ends_data. Qed.
+Theorem C10_cancelled_sender_sends_no_data : forall cksum resp_len req_len now o s,
+  s_phase s = SCancelled \/ s_phase s = SFinished ->
+  let s' := fst (sstep cksum resp_len req_len now o s) in
+  (s_phase s' = SCancelled \/ s_phase s' = SFinished) /\ Forall no_data (s_out s').
+Proof. exact ND_sstep. Qed.
+
 (* non-vacuity: cancel in the middle of a transfer, then the rest of the data and the EOF arrive *)
 Definition ex_cfg : config := mkConfig Acked false false 16 3 10000 3000 4000 [] 1 2 7 1 1.
 Definition ex_md : metadata := mkMeta [115] [100] 5 CkModular false [] [].
@@ -87,3 +103,5 @@ Proof. vm_compute. auto. Qed.
 Print Assumptions C10_cancel_effect.
 Print Assumptions C10_no_file_after_cancel.
 Print Assumptions C10_peer_cancel.
+Print Assumptions C10_user_cancel_ends_data.
+Print Assumptions C10_cancelled_sender_sends_no_data.
